@@ -28,6 +28,8 @@ mod region;
 mod region_metadata;
 mod region_state;
 mod regions;
+#[cfg(anydb_verif)]
+pub mod verif_tap;
 
 pub use disk_usage::*;
 pub use error::*;
@@ -92,8 +94,12 @@ impl Database {
 
         let mut file_len = file.metadata()?.len() as usize;
         if file_len < min_len {
+            #[cfg(anydb_verif)]
+            verif_tap::emit(verif_tap::Event::SetLen { file: 0, len: min_len });
             file.set_len(min_len as u64)?;
             file.sync_all()?;
+            #[cfg(anydb_verif)]
+            verif_tap::emit(verif_tap::Event::SyncData { file: 0 });
             file_len = min_len;
         }
 
@@ -151,6 +157,8 @@ impl Database {
             "{}: set_min_len to {} (requested {})",
             self, target_len, len
         );
+        #[cfg(anydb_verif)]
+        verif_tap::emit(verif_tap::Event::SetLen { file: 0, len: target_len });
         file.set_len(target_len as u64)?;
         self.0.cached_file_len.store(target_len, Ordering::Relaxed);
         *mmap = create_mmap(&file)?;
@@ -211,6 +219,8 @@ impl Database {
 
     #[inline]
     pub(crate) fn write(&self, start: usize, data: &[u8]) {
+        #[cfg(anydb_verif)]
+        verif_tap::emit(verif_tap::Event::MmapWrite { file: 0, offset: start, len: data.len() });
         write_to_mmap(&self.mmap(), start, data);
     }
 
@@ -231,6 +241,8 @@ impl Database {
         }
 
         let mmap = self.mmap();
+        #[cfg(anydb_verif)]
+        verif_tap::emit(verif_tap::Event::MmapWrite { file: 0, offset: dst, len });
         write_to_mmap(&mmap, dst, &mmap[src..src_end]);
         Ok(())
     }
@@ -329,6 +341,8 @@ impl Database {
 
         if dirty_regions.is_empty() {
             debug!("{}: flush (no dirty)", self);
+            #[cfg(anydb_verif)]
+            verif_tap::pause("flush:before-promote-no-dirty");
             self.layout_mut().promote_pending_holes(self.name());
             return Ok(0);
         }
@@ -346,6 +360,8 @@ impl Database {
 
         if flush_start < flush_end {
             let mmap = self.mmap();
+            #[cfg(anydb_verif)]
+            verif_tap::emit(verif_tap::Event::FlushAsync { file: 0, offset: flush_start, len: flush_end - flush_start });
             if let Err(e) = mmap.flush_async_range(flush_start, flush_end - flush_start) {
                 drop(mmap);
                 for (region, bounds) in dirty_regions {
@@ -360,12 +376,16 @@ impl Database {
         // Data must be durable before metadata (crash safety).
         self.regions().flush()?;
         self.file().sync_data()?;
+        #[cfg(anydb_verif)]
+        verif_tap::emit(verif_tap::Event::SyncData { file: 0 });
         self.regions().sync_data()?;
         for (region, _) in &dirty_regions {
             region.meta().mark_clean();
         }
 
         debug!("{}: flushed {} regions", self, dirty_regions.len());
+        #[cfg(anydb_verif)]
+        verif_tap::pause("flush:before-promote");
         self.layout_mut().promote_pending_holes(self.name());
         Ok(dirty_regions.len())
     }
@@ -421,6 +441,8 @@ impl Database {
         // joins this thread before the Arc is deallocated.
         // ManuallyDrop prevents the refcount decrement we never incremented.
         let db = ManuallyDrop::new(unsafe { Self(Arc::from_raw(Arc::as_ptr(&self.0))) });
+        #[cfg(anydb_verif)]
+        verif_tap::lock("bg_tasks", 0, true);
         self.0.bg_tasks.lock().push(thread::spawn(move || f(&db)));
     }
 
@@ -461,6 +483,8 @@ impl Database {
 
         let file = self.file();
         let mut punched = 0usize;
+        #[cfg(anydb_verif)]
+        verif_tap::pause("punch_holes:locks-held");
 
         // Punch region reserved space. We MUST hold meta WRITE before checking,
         // because write_with does db.write() BEFORE updating meta. If we only
@@ -475,7 +499,11 @@ impl Database {
             if ceil_len < reserved {
                 let start = rstart + ceil_len;
                 let hole = reserved - ceil_len;
+                #[cfg(anydb_verif)]
+                verif_tap::emit(verif_tap::Event::Layout { kind: "punch_candidate_tail", start, size: hole });
                 if Self::approx_has_punchable_data(&file, start, hole) {
+                    #[cfg(anydb_verif)]
+                    verif_tap::emit(verif_tap::Event::Punch { offset: start, len: hole });
                     HolePunch::punch(&file, start, hole)?;
                     punched += 1;
                 }
@@ -487,7 +515,11 @@ impl Database {
         let layout_punched: usize = layout_holes
             .par_iter()
             .filter_map(|&(start, hole)| {
+                #[cfg(anydb_verif)]
+                verif_tap::emit(verif_tap::Event::Layout { kind: "punch_candidate_hole", start, size: hole });
                 if Self::approx_has_punchable_data(&file, start, hole) {
+                    #[cfg(anydb_verif)]
+                    verif_tap::emit(verif_tap::Event::Punch { offset: start, len: hole });
                     HolePunch::punch(&file, start, hole).ok()?;
                     Some(1)
                 } else {
@@ -505,6 +537,8 @@ impl Database {
             debug!("{}: punch_holes syncing after {} punches", self, punched);
             let file = self.file();
             file.sync_data()?;
+            #[cfg(anydb_verif)]
+            verif_tap::emit(verif_tap::Event::SyncData { file: 0 });
         }
 
         Ok(())
@@ -569,41 +603,57 @@ impl Database {
 
     #[inline(always)]
     pub fn file(&self) -> RwLockReadGuard<'_, File> {
+        #[cfg(anydb_verif)]
+        verif_tap::lock("file", 0, false);
         self.0.file.read()
     }
 
     #[inline(always)]
     pub fn file_mut(&self) -> RwLockWriteGuard<'_, File> {
+        #[cfg(anydb_verif)]
+        verif_tap::lock("file", 0, true);
         self.0.file.write()
     }
 
     #[inline(always)]
     pub fn mmap(&self) -> RwLockReadGuard<'_, MmapMut> {
+        #[cfg(anydb_verif)]
+        verif_tap::lock("mmap", 0, false);
         self.0.mmap.read()
     }
 
     #[inline(always)]
     pub fn mmap_mut(&self) -> RwLockWriteGuard<'_, MmapMut> {
+        #[cfg(anydb_verif)]
+        verif_tap::lock("mmap", 0, true);
         self.0.mmap.write()
     }
 
     #[inline(always)]
     pub fn regions(&self) -> RwLockReadGuard<'_, Regions> {
+        #[cfg(anydb_verif)]
+        verif_tap::lock("regions", 0, false);
         self.0.regions.read()
     }
 
     #[inline(always)]
     pub(crate) fn regions_mut(&self) -> RwLockWriteGuard<'_, Regions> {
+        #[cfg(anydb_verif)]
+        verif_tap::lock("regions", 0, true);
         self.0.regions.write()
     }
 
     #[inline(always)]
     pub fn layout(&self) -> RwLockReadGuard<'_, Layout> {
+        #[cfg(anydb_verif)]
+        verif_tap::lock("layout", 0, false);
         self.0.layout.read()
     }
 
     #[inline(always)]
     pub(crate) fn layout_mut(&self) -> RwLockWriteGuard<'_, Layout> {
+        #[cfg(anydb_verif)]
+        verif_tap::lock("layout", 0, true);
         self.0.layout.write()
     }
 
@@ -662,5 +712,28 @@ impl WeakDatabase {
                 .upgrade()
                 .expect("Database was dropped while Region still exists"),
         )
+    }
+}
+
+#[cfg(anydb_verif)]
+impl Database {
+    /// Verification hook: which of the database-level locks are currently held by anyone
+    /// (layout, regions, mmap, file): 0 = free, 1 = shared, 2 = exclusive.
+    pub fn verif_lock_state(&self) -> [u8; 4] {
+        fn st<T>(l: &RwLock<T>) -> u8 {
+            if l.is_locked_exclusive() {
+                2
+            } else if l.is_locked() {
+                1
+            } else {
+                0
+            }
+        }
+        [
+            st(&self.0.layout),
+            st(&self.0.regions),
+            st(&self.0.mmap),
+            st(&self.0.file),
+        ]
     }
 }
